@@ -99,11 +99,7 @@ func (l dirItemList) size(joliet bool) sizeBytes {
 			entries = item.dirEntryJoliet
 		}
 
-		for _, entry := range entries {
-			ret += entry.size()
-		}
-
-		ret = ret.sectors().bytes() // directory entries of one directory aligned to sector
+		ret += directoryEntriesSize(entries) // directory entries of one directory aligned to sector
 	}
 
 	return ret
